@@ -40,6 +40,9 @@ CHECKS["C18"]=dict(level="exploration", design="DESIGN.md §3 C18", technique="r
 CHECKS["C07"]=dict(level="fault_enumeration", design="DESIGN.md §3 C07", technique="runtime monitoring with fault enumeration: every subset of the cache files of a golden run (incl. partial files from stand-alone jobs, truncated temp siblings) restored and the request re-run; differential oracle REF-LINEAR + cache auditor; interruption (cancel after k-th message) then re-run",
    text="For the enumerated universes EVERY subset of cache files was restored and the request re-run: it completed with the reference outputs and left only files that decode to the reference content; PRNG subsets of larger universes, shifted requests and interrupted-then-re-run requests likewise.",
    note="Atomic file writes assumed (dstore temp+rename), half-written files modelled by temp siblings; requests of the recorded finding shape C05/stage-index-shift are not generated.")
+CHECKS["C03"]=dict(level="exploration", design="DESIGN.md §3 C03", technique="runtime monitoring: generated fork trees and arrival orders resolved by the real bstream forkable, store state compared after EVERY step with a fork-free REF-LINEAR run of the applied chain (differential), client-model trace checker over undo signals",
+   text="After every new/undo/stalled/final step of every generated history every store held exactly the typed content of a fork-free execution of the currently applied chain with an exact reported size, and a client applying the undo signals ended with exactly the reference outputs of the canonical chain; undo signals always designated a held block.",
+   note="Fork points are blocks of the tree (a fresh fork resolver cannot name its initial LIB as a junction); REF-LINEAR per chain shares the executors with the system under test.")
 NOT_YET = {}
 def main():
     checks=[]
